@@ -129,6 +129,19 @@ pub fn emphasised(seed: u64, idx: usize) -> (Vec<u8>, &'static str) {
             _ => (format!("\"\u{71d}\" = \"{}\"\n", "\u{71d}".repeat(d)).into_bytes(), "text_reading_as_deep_msgpack"),
         };
     }
+    if idx % 50 == 47 || idx % 50 == 46 {
+        // a UTF-8 byte order mark (or another invisible first character) in front of a document of each format
+        let mut feats = crate::spell::Feats::default();
+        let mut cl = crate::gen::Classes::default();
+        let d = crate::gen::gen_doc(&mut rng, &GenOpts { max_depth: 2, max_width: 3, ..GenOpts::common() }, &mut cl);
+        let f = ALL[rng.below(4)];
+        let d = if f == Fmt::Toml { crate::gen::tomlify(&d).unwrap_or(crate::model::Val::Map(vec![])) } else { d };
+        let body = if rng.chance(1, 3) { (*rng.pick(&[&b"{\"n\": -0}"[..], b"[1]\n[2]\n", b"{\"e\": \"\\ud83d\\ude00\"}", b"k = 1\n", b"a: 1\n", b"\x91\x01"])).to_vec() } else { crate::spell::spell(f, &d, &mut rng, &mut feats, true) };
+        let lead: &[u8] = *rng.pick(&[&b"\xef\xbb\xbf"[..], b"\xef\xbb\xbf", b"\xef\xbb\xbf\xef\xbb\xbf", b"\xe2\x80\x8b", b"\xc2\xa0", b"\xef\xbb"]);
+        let mut b = lead.to_vec();
+        b.extend_from_slice(&body);
+        return (b, "behind_a_byte_order_mark_or_invisible_character");
+    }
     if idx % 50 == 48 {
         // a document of each text format behind a long run of insignificant white space (JSON: space, tab,
         // CR, LF; YAML / TOML: blank lines), around the sizes of read buffers
@@ -495,7 +508,7 @@ pub fn run(ctx: &Ctx) -> i32 {
         acc.merge(e_acc);
     }
     handle_programs(ctx, &mut acc);
-    let rule = format!("(a,b) {} mixed corpus inputs + {} inputs aimed at the detection trials (MessagePack collection markers followed by every kind of truncation, text starting with U+0700-U+07FF and other two-byte characters, inputs several formats accept, truncated seeds, JSON / YAML / TOML behind 1000..70001 bytes of white space, TOML documents of 1 000 000, 2 050 000 and just under 2 MiB bytes), each as a slice and under 4 read schedules, rotating target; (e) 30 inputs that several formats accept x a translator warmed up with a detected input of each format (and pairs of them) x 3 targets x slice/reader: verdict and output as on a fresh translator; (d) EVERY program of up to {} tokens over {{new borrow, read(n), prefix(n) : n in 0..=len+1}} x every data size 0..=6 x EVERY chunking of the source x both ways of taking ownership, plus the same programs on slice handles; distinct non-trivial = distinct inputs plus distinct programs of >= 2 tokens on >= 2 bytes", n_mixed, n_emph, if ctx.thorough() { 5 } else { 3 });
+    let rule = format!("(a,b) {} mixed corpus inputs + {} inputs aimed at the detection trials (MessagePack collection markers followed by every kind of truncation, text starting with U+0700-U+07FF and other two-byte characters, inputs several formats accept, truncated seeds, JSON / YAML / TOML behind 1000..70001 bytes of white space, documents of each format behind a UTF-8 byte order mark or another invisible character, TOML documents of 1 000 000, 2 050 000 and just under 2 MiB bytes), each as a slice and under 4 read schedules, rotating target; (e) 30 inputs that several formats accept x a translator warmed up with a detected input of each format (and pairs of them) x 3 targets x slice/reader: verdict and output as on a fresh translator; (d) EVERY program of up to {} tokens over {{new borrow, read(n), prefix(n) : n in 0..=len+1}} x every data size 0..=6 x EVERY chunking of the source x both ways of taking ownership, plus the same programs on slice handles; distinct non-trivial = distinct inputs plus distinct programs of >= 2 tokens on >= 2 bytes", n_mixed, n_emph, if ctx.thorough() { 5 } else { 3 });
     let mut extra = serde_json::Map::new();
     extra.insert("handle_programs_exhaustive_up_to_tokens".into(), json!(if ctx.thorough() { 5 } else { 3 }));
     ev::finish(
